@@ -47,7 +47,9 @@ def run_one(prop: str, patch: Path, tier: str, seed: int = 0, timeout: int = 300
         p = subprocess.run(["patch", "-p1", "-s", "-d", str(scratch), "-i", str(patch)], capture_output=True, text=True)
         if p.returncode != 0:
             return {"patch": patch.name, "applied": False, "detail": (p.stdout + p.stderr)[-300:]}
-        env = dict(os.environ, LEASPY_SRC=str(scratch / "src"), VERIF_SEED=str(seed), VF_SELFVAL="1")
+        # evidence / replay files of a run against a mutated copy never land in /verif/evidence or /verif/replay
+        env = dict(os.environ, LEASPY_SRC=str(scratch / "src"), VERIF_SEED=str(seed), VF_SELFVAL="1",
+                   VF_EVIDENCE_DIR=str(scratch / "evidence"), VF_REPLAY_DIR=str(scratch / "replay"))
         r = subprocess.run([str(VERIF / "check"), prop, "--tier", tier], cwd=str(VERIF), env=env, capture_output=True, text=True, timeout=timeout)
         keys = []
         for rp in re.findall(r"VIOLATION property=\S+ replay=(\S+)", r.stdout):
